@@ -255,6 +255,22 @@ Proof.
     destruct (random_between orc lo hi i) as [r' j']. cbn [fst] in Hr. injection H as <- _. exact Hr.
 Qed.
 
+(* ================================================================ GIV_ExtensionrandIter constructor (after c502f80) *)
+(* (field, SEED, SIZE): the second argument is the seed, and the sampling size kept lies in [1, cardinality of the BASE field] -- so every
+   coefficient index drawn is one of the base field, also when the base field is GF(p^k) with k > 1 *)
+Definition Ext_randiter_ctor_stmt : Prop :=
+  ext_randiter_seed_first = true -> ext_randiter_bounds_by_base_cardinality = true ->
+  forall seed size charact basecard, 0 < basecard -> 0 <= size ->
+    fst (ext_randiter_ctor seed size charact basecard) = seed /\
+    0 < snd (ext_randiter_ctor seed size charact basecard) <= basecard /\
+    (0 < size <= basecard -> snd (ext_randiter_ctor seed size charact basecard) = size).
+Lemma ext_randiter_ctor_thm : Ext_randiter_ctor_stmt.
+Proof.
+  intros E1 E2 seed size charact basecard Hb Hs. unfold ext_randiter_ctor. rewrite E1, E2. cbn [fst snd].
+  split; [reflexivity|]. split; [apply ext_size_bound; assumption|].
+  intros H. unfold ext_size. destruct (Z.gtb_spec size basecard); [lia|]. destruct (Z.eqb_spec size 0); [lia | reflexivity].
+Qed.
+
 (* ---------------------------------------------------------------- the hypotheses are satisfiable *)
 Example ex_sized : 2 <= 101 /\ 2 <= 5 /\ 1 <= 5 <= M - 1 /\ (forall x, mod_init 101 x = 0 <-> x mod 101 = 0).
 Proof. repeat split; try (vm_compute; discriminate); apply mod_init_zero. Qed.
